@@ -1,0 +1,246 @@
+//go:build verif
+
+// Contracts for govc (/verif): C15 "Finalizing a snapshot is atomic and idempotent" (with the parts of C16/C17 that live in the same functions).
+// Comment-only file. Key space, T-KV vocabulary: zz_contracts_c03_verif.go and /verif/govc/trusted/badger.spec.
+
+package storage
+
+//@ -- (key space, kinds 7..17, QK renamed UQK, KeyAsVal, constructors: zz_contracts_keyspace_verif.go)
+
+//@ -- ═════════ badger_asset.go ═════════
+//@ -- TotalOf: the recorded supply of an asset in the view t: the amount encoded by the decimal text stored under ASSETTOTAL/<asset>, 0 when absent.
+//@ spec TotalOf(t badger.Txn, a crypto.Hash) mathint = badger.kvget(t, ATK(a)) == 0 ? 0 : common.AmountOfVal(badger.kvget(t, ATK(a)))
+//@ spec HasAssetInfo(t badger.Txn, a crypto.Hash) bool = badger.kvget(t, AIK(a)) != 0
+//@ -- (the string <-> bytes conversions of the total are linked to value ids by kvstr(s), see govc/ext_kvstr.go)
+//@ spec AmountOfStr(s string) mathint = common.AmountOfVal(kvstr(s))
+
+//@ func readTotalInAsset
+//@   property C17
+//@   requires txn != nil
+//@   modifies nothing
+//@   trustpre NewIntegerFromString -- STORE INVARIANT (assumed): the text under ASSETTOTAL/<asset> was written by writeTotalInAsset as Integer.String() of a
+//@   -- non-negative amount, so it is a non-negative decimal and the parser (which documents its panics since the C33 text work) accepts it
+//@   ensures [total] err == nil ==> val(result0) == TotalOf(*txn, hash) && val(result0) >= 0
+//@   ensures [c16-errors] err != nil ==> badger.iofail(err)
+
+//@ -- readAssetInfo: json.Unmarshal (reflection) is outside the subset: ASSUMED (opaque), transcribed from the body: ErrKeyNotFound =>
+//@ -- (nil, nil); other Get/ValueCopy errors are returned; otherwise the decoded asset, with the JSON error or Asset.Verify's verdict.
+//@ func readAssetInfo
+//@   opaque
+//@   requires txn != nil
+//@   modifies nothing
+//@   ensures [absent] !HasAssetInfo(*txn, id) ==> result0 == nil && (err == nil || badger.iofail(err))
+//@   ensures [present] HasAssetInfo(*txn, id) && err == nil ==> result0 != nil && fresh(result0) &&
+//@       result0.Chain == common.AssetChainOfVal(badger.kvget(*txn, AIK(id))) && result0.AssetKey == common.AssetKeyOfVal(badger.kvget(*txn, AIK(id)))
+//@   ensures [errors] err != nil ==> badger.iofail(err) || (HasAssetInfo(*txn, id) && !common.AssetInfoWf(badger.kvget(*txn, AIK(id))))
+
+//@ -- SameInfo: the stored asset info of id agrees with a (what verifyAssetInfo / writeAssetInfo accept)
+//@ spec SameInfo(t badger.Txn, id crypto.Hash, a *common.Asset) bool = common.AssetChainOfVal(badger.kvget(t, AIK(id))) == a.Chain && common.AssetKeyOfVal(badger.kvget(t, AIK(id))) == a.AssetKey
+//@ func writeAssetInfo
+//@   property C15, C16
+//@   requires txn != nil && a != nil
+//@   nopanic when true -- the only panic is a failing json.Marshal of a *common.Asset (excluded by the assumed contract of json.Marshal)
+//@   modifies *txn
+//@   ensures [first-wins] old(HasAssetInfo(*txn, id)) ==> *txn == old(*txn)
+//@   ensures [mismatch-refused] old(HasAssetInfo(*txn, id)) && !old(SameInfo(*txn, id, a)) ==> err != nil
+//@   ensures [frame] forall k mathint :: {badger.kvget(*txn, k)} k != AIK(id) ==> badger.kvget(*txn, k) == old(badger.kvget(*txn, k))
+//@   ensures [written] err == nil ==> HasAssetInfo(*txn, id)
+//@   ensures [fail] err != nil ==> *txn == old(*txn)
+//@   ensures [db] badger.txndb(*txn) == old(badger.txndb(*txn)) -- the transaction stays attached to its DB (needed by NewTransaction/Commit style callers: C15)
+//@   ensures [c16-accepts] err != nil && (!old(HasAssetInfo(*txn, id)) || (common.AssetInfoWf(old(badger.kvget(*txn, AIK(id)))) && old(SameInfo(*txn, id, a)))) ==> badger.iofail(err)
+
+//@ -- writeTotalInAsset: ASSETTOTAL/<asset> moves by Delta(ver), by transaction class (C17):
+//@ --   deposit +deposit amount | mint +mint amount | genesis +sum of outputs | withdrawal submission -sum of its submit outputs | every other class 0 (no write).
+//@ -- TxShapeOK: the stored transaction came out of the decoder (non-nil inputs/outputs, an empty Genesis is nil) and was admitted by Validate (OnlySpecial).
+//@ spec TxShapeOK(ver *common.VersionedTransaction) bool = ver != nil && len(ver.Inputs) >= 1 && common.InputsOK(&ver.SignedTransaction.Transaction) && common.OutputsOK(&ver.SignedTransaction.Transaction) &&
+//@     common.OnlySpecial(&ver.SignedTransaction.Transaction) && (forall j int :: 0 <= j && j < len(ver.Inputs) ==> common.NilIfEmpty(ver.Inputs[j].Genesis))
+//@ -- TotalPre (C16): what makes writeTotalInAsset panic-free: the asset is known (HasAssetInfo) and the total admits the transaction
+//@ -- (TotalAdmits): amounts are positive, the new total stays within the capacity, and a withdrawal submission never takes more than the
+//@ -- recorded total (the latter is C17's invariant: total == sum of unconsumed outputs).
+//@ spec TotalAdmits(t badger.Txn, ver *common.VersionedTransaction) bool =
+//@     (common.DepositShape(&ver.SignedTransaction.Transaction) ==> val(ver.Inputs[0].Deposit.Amount) > 0 && TotalOf(t, ver.Asset) + val(ver.Inputs[0].Deposit.Amount) <= common.CapacityOf(ver.Asset)) &&
+//@     (common.MintShape(&ver.SignedTransaction.Transaction) ==> val(ver.Inputs[0].Mint.Amount) > 0 && TotalOf(t, ver.Asset) + val(ver.Inputs[0].Mint.Amount) <= common.CapacityOf(ver.Asset)) &&
+//@     (common.GenesisShape(&ver.SignedTransaction.Transaction) ==> (forall i int :: 0 <= i && i < len(ver.Outputs) ==> val(ver.Outputs[i].Amount) > 0) &&
+//@          (forall i int :: 0 <= i && i <= len(ver.Outputs) ==> TotalOf(t, ver.Asset) + common.SumOut(ver.Outputs, i) <= common.CapacityOf(ver.Asset))) &&
+//@     (common.PlainInputs(&ver.SignedTransaction.Transaction) && !common.NoSubmitOutput(&ver.SignedTransaction.Transaction) ==> (forall i int :: 0 <= i && i < len(ver.Outputs) && ver.Outputs[i].Type == common.OutputTypeWithdrawalSubmit ==> val(ver.Outputs[i].Amount) > 0) &&
+//@          (forall i int :: 0 <= i && i <= len(ver.Outputs) ==> common.SumSubmit(ver.Outputs, i) <= TotalOf(t, ver.Asset)) && TotalOf(t, ver.Asset) <= common.CapacityOf(ver.Asset))
+//@ spec TotalPre(t badger.Txn, ver *common.VersionedTransaction) bool = HasAssetInfo(t, ver.Asset) && TotalAdmits(t, ver)
+//@ func writeTotalInAsset
+//@   property C17, C16, C15
+//@   requires txn != nil && TxShapeOK(ver)
+//@   nopanic when TotalPre(*txn, ver)
+//@   modifies *txn
+//@   ensures [frame] forall k mathint :: {badger.kvget(*txn, k)} k != ATK(ver.Asset) ==> badger.kvget(*txn, k) == old(badger.kvget(*txn, k))
+//@   ensures [fail] err != nil ==> *txn == old(*txn)
+//@   ensures [db] badger.txndb(*txn) == old(badger.txndb(*txn)) -- the transaction stays attached to its DB (needed by NewTransaction/Commit style callers: C15)
+//@   ensures [deposit] err == nil && common.DepositShape(&ver.SignedTransaction.Transaction) ==> TotalOf(*txn, ver.Asset) == old(TotalOf(*txn, ver.Asset)) + val(ver.Inputs[0].Deposit.Amount)
+//@   ensures [mint] err == nil && common.MintShape(&ver.SignedTransaction.Transaction) ==> TotalOf(*txn, ver.Asset) == old(TotalOf(*txn, ver.Asset)) + val(ver.Inputs[0].Mint.Amount)
+//@   ensures [genesis] err == nil && common.GenesisShape(&ver.SignedTransaction.Transaction) ==> TotalOf(*txn, ver.Asset) == old(TotalOf(*txn, ver.Asset)) + common.SumOut(ver.Outputs, len(ver.Outputs))
+//@   ensures [submit] err == nil && common.SubmitShape(&ver.SignedTransaction.Transaction) ==> TotalOf(*txn, ver.Asset) == old(TotalOf(*txn, ver.Asset)) - common.SumSubmit(ver.Outputs, len(ver.Outputs))
+//@   ensures [other] common.OtherShape(&ver.SignedTransaction.Transaction) ==> *txn == old(*txn)
+//@   ensures [delta] err == nil && common.DeltaKnown(&ver.SignedTransaction.Transaction) ==> TotalOf(*txn, ver.Asset) == old(TotalOf(*txn, ver.Asset)) + common.DeltaOf(&ver.SignedTransaction.Transaction) -- the five clauses above in one formula
+//@   ensures [nonneg] err == nil ==> 0 <= TotalOf(*txn, ver.Asset)
+//@   ensures [capacity] err == nil && (common.DepositShape(&ver.SignedTransaction.Transaction) || common.MintShape(&ver.SignedTransaction.Transaction) || common.GenesisShape(&ver.SignedTransaction.Transaction) || common.SubmitShape(&ver.SignedTransaction.Transaction)) ==>
+//@       TotalOf(*txn, ver.Asset) <= common.CapacityOf(ver.Asset)
+//@   ensures [c16-accepts] err != nil && HasAssetInfo(*txn, ver.Asset) && common.AssetInfoWf(badger.kvget(*txn, AIK(ver.Asset))) ==> badger.iofail(err)
+//@   hint after TransactionType [classify] (callresult == common.TransactionTypeDeposit ==> common.DepositShape(&ver.SignedTransaction.Transaction)) && (callresult == common.TransactionTypeMint ==> common.MintShape(&ver.SignedTransaction.Transaction)) &&
+//@       (callresult == common.TransactionTypeWithdrawalSubmit ==> common.PlainInputs(&ver.SignedTransaction.Transaction))
+//@   hint after TransactionType [classify-rest] callresult != common.TransactionTypeDeposit && callresult != common.TransactionTypeMint ==>
+//@       (!isnil(ver.Inputs[0].Genesis) ==> common.GenesisShape(&ver.SignedTransaction.Transaction)) && (isnil(ver.Inputs[0].Genesis) ==> common.PlainInputs(&ver.SignedTransaction.Transaction))
+//@   loop 0 invariant [running] val(total) == old(TotalOf(*txn, ver.Asset)) - common.SumSubmit(ver.Outputs, rangeindex + 1) && val(total) >= 0
+//@   loop 0 invariant [decreasing] val(total) <= old(TotalOf(*txn, ver.Asset))
+//@   loop 0 invariant [unfold] rangeindex + 1 < len(ver.Outputs) ==> common.SumSubmit(ver.Outputs, rangeindex + 2) == common.SumSubmit(ver.Outputs, rangeindex + 1) + (ver.Outputs[rangeindex + 1].Type == common.OutputTypeWithdrawalSubmit ? val(ver.Outputs[rangeindex + 1].Amount) : 0)
+//@   loop 1 invariant [unfold] rangeindex + 1 < len(ver.Outputs) ==> common.SumOut(ver.Outputs, rangeindex + 2) == common.SumOut(ver.Outputs, rangeindex + 1) + val(ver.Outputs[rangeindex + 1].Amount)
+//@   loop 1 invariant [running] val(total) == old(TotalOf(*txn, ver.Asset)) + common.SumOut(ver.Outputs, rangeindex + 1) && val(total) >= 0
+
+//@ -- ═════════ badger_transaction.go: readTransaction ═════════
+//@ -- ASSUMED (opaque), for two reasons. (1) The body has a latent crash: on a Get error other than ErrKeyNotFound `item` is nil and
+//@ -- item.ValueCopy dereferences it (DESIGN.md §6, outside the listed properties; on the WriteSnapshot path it happens before Commit,
+//@ -- so nothing is applied). The contract below describes the RETURNING executions, transcribed from the body. (2) [stored] is the store
+//@ -- invariant that a TRANSACTION/<h> entry holds the canonical encoding of a transaction that passed Validate before WriteTransaction
+//@ -- stored it (decoder postcondition DecodedTx: C06; Validate: C05/C01): see StoredTxOK.
+//@ uninterp TxValWf(v mathint) bool
+//@ func readTransaction
+//@   opaque
+//@   requires txn != nil
+//@   modifies nothing
+//@   ensures [absent] !HasTx(*txn, hash) ==> result0 == nil && err == nil
+//@   ensures [present] HasTx(*txn, hash) && err == nil ==> result0 != nil && fresh(result0) && allocated(result0)
+//@   ensures [stored] err == nil && result0 != nil ==> StoredTxOK(result0)
+//@   ensures [errors] err != nil ==> badger.iofail(err) || !TxValWf(badger.kvget(*txn, TK(hash)))
+
+//@ -- ═════════ badger_transaction.go: finalizeTransaction ═════════
+//@ spec SnapOK(snap *common.SnapshotWithTopologicalOrder) bool = snap != nil && snap.Snapshot != nil && snap.Version == common.SnapshotVersionCommonEncoding
+//@ -- StoredTxOK: the shape of a transaction read back from TRANSACTION/<h>: it came out of the decoder (non-nil elements, counts within
+//@ -- the decoder limits) and had passed Validate when it was stored (OnlySpecial; a withdrawal claim carries its reference), plus the
+//@ -- typing facts the engine needs (objects reachable from ver exist in the current state; a *crypto.Key never points at the hash cache).
+//@ spec StoredTxOK(ver *common.VersionedTransaction) bool = TxShapeOK(ver) && len(ver.Outputs) <= common.SliceCountLimit && allocated(ver.Outputs) && allocated(ver.Inputs) && allocated(ver.References) &&
+//@     (forall j int :: {ver.Inputs[j]} 0 <= j && j < len(ver.Inputs) ==> allocated(ver.Inputs[j])) &&
+//@     (forall a int :: {ver.Outputs[a]} 0 <= a && a < len(ver.Outputs) ==> allocated(ver.Outputs[a]) && allocated(ver.Outputs[a].Keys) &&
+//@         (ver.Outputs[a].Type == common.OutputTypeWithdrawalClaim ==> len(ver.References) >= 1) &&
+//@         forall i int :: {ver.Outputs[a].Keys[i]} 0 <= i && i < len(ver.Outputs[a].Keys) ==> ver.Outputs[a].Keys[i] != nil && allocated(ver.Outputs[a].Keys[i]) && ver.Outputs[a].Keys[i] != &ver.hash)
+//@ -- FinalizePre (C16): sufficient for "finalizeTransaction does not panic": every output type is known, the asset is known (or the
+//@ -- transaction is a deposit, which registers it), and the asset total admits the transaction.
+//@ spec FinalizePre(t badger.Txn, ver *common.VersionedTransaction) bool =
+//@     (forall i int :: 0 <= i && i < len(ver.Outputs) ==> common.KnownOutType(ver.Outputs[i].Type)) &&
+//@     (ver.Inputs[0].Deposit == nil ==> HasAssetInfo(t, ver.Asset)) && TotalAdmits(t, ver) &&
+//@     (forall a int :: {ver.Outputs[a]} 0 <= a && a < len(ver.Outputs) && ver.Outputs[a].Type == common.OutputTypeWithdrawalClaim ==> ClaimPre(t, ver.References[0]))
+//@ func finalizeTransaction
+//@   property C15, C16, C17
+//@   trustpre PayloadHash -- payload well-formedness and the Debug self-check belong to C06
+//@   requires txn != nil && SnapOK(snap) && StoredTxOK(ver)
+//@   nopanic when FinalizePre(*txn, ver)
+//@   modifies *txn, ver.hash, ver.pmbytes
+//@   ensures [hash] ver.hash.HasValue() && (old(ver.hash.HasValue()) ==> ver.hash == old(ver.hash))
+//@   ensures [idempotent] let h == ver.hash in old(Finalized(*txn, h)) ==> *txn == old(*txn) && (err == nil || badger.iofail(err)) -- nothing is written, no output or total is re-applied; the only possible error is the store's own failure to read the record
+//@   ensures [fin-record] let h == ver.hash in !old(Finalized(*txn, h)) && err == nil ==> badger.kvget(*txn, FK(h)) == old(common.SnapId(snap.Snapshot))
+//@   ensures [finalized] err == nil ==> Finalized(*txn, ver.hash)
+//@   ensures [db] badger.txndb(*txn) == old(badger.txndb(*txn)) -- the transaction stays attached to its DB (needed by NewTransaction/Commit style callers: C15)
+//@   ensures [first-wins] forall k mathint :: {badger.kvget(*txn, k)} keykind(k) == 6 && old(badger.kvget(*txn, k)) != 0 ==> badger.kvget(*txn, k) == old(badger.kvget(*txn, k))
+//@   ensures [ghost-first] forall k mathint :: {badger.kvget(*txn, k)} keykind(k) == 2 && old(badger.kvget(*txn, k)) != 0 ==> badger.kvget(*txn, k) == old(badger.kvget(*txn, k)) -- an existing one-time-key binding is never overwritten (C04, through writeUTXO)
+//@   ensures [frame] let h == ver.hash in forall k mathint :: {badger.kvget(*txn, k)} badger.kvget(*txn, k) != old(badger.kvget(*txn, k)) ==>
+//@       k == FK(h) || k == AIK(ver.Asset) || k == ATK(ver.Asset) || keykind(k) == 2 || (keykind(k) == 1 && keyhid(k) == kvval(h)) || keykind(k) == 14 || keykind(k) == 15 || keykind(k) == 16
+//@   -- C17: the effect of ONE finalization on the recorded supply and on the set of outputs; nothing when the transaction was finalized before ([idempotent])
+//@   ensures [total] let h == ver.hash in !old(Finalized(*txn, h)) && err == nil && common.DeltaKnown(&ver.SignedTransaction.Transaction) ==>
+//@       TotalOf(*txn, ver.Asset) == old(TotalOf(*txn, ver.Asset)) + common.DeltaOf(&ver.SignedTransaction.Transaction) -- Delta by class: +deposit | +mint | +genesis outputs | -submission outputs | 0 (common.DeltaOf)
+//@   ensures [total-bounds] let h == ver.hash in !old(Finalized(*txn, h)) && err == nil ==> 0 <= TotalOf(*txn, ver.Asset) &&
+//@       (common.WritesTotal(&ver.SignedTransaction.Transaction) ==> TotalOf(*txn, ver.Asset) <= common.CapacityOf(ver.Asset))
+//@   ensures [outputs] let h == ver.hash in !old(Finalized(*txn, h)) && err == nil ==> forall i int :: 0 <= i && i < len(ver.Outputs) && common.Materialised(ver.Outputs[i].Type) ==> HasUtxo(*txn, h, i)
+//@   loop 0 invariant [hash] ver.hash.HasValue() && (old(ver.hash.HasValue()) ==> ver.hash == old(ver.hash))
+//@   loop 0 invariant [written] forall j int :: {rangeexpr[j]} 0 <= j && j <= rangeindex ==> HasUtxo(*txn, ver.hash, rangeexpr[j].Index)
+//@   loop 0 invariant [by-output] forall i int :: 0 <= i && i < len(ver.Outputs) && common.Materialised(ver.Outputs[i].Type) ==> exists j int :: 0 <= j && j < len(rangeexpr) && rangeexpr[j].Index == i
+//@   loop 0 invariant [shape] TxShapeOK(ver)
+//@   loop 0 invariant [utxos] forall j int :: {rangeexpr[j]} 0 <= j && j < len(rangeexpr) ==> fresh(rangeexpr[j]) && allocated(rangeexpr[j]) && common.UtxoOf(rangeexpr[j], ver)
+//@   loop 0 invariant [db] badger.txndb(*txn) == old(badger.txndb(*txn))
+//@   loop 0 invariant [claim] old(FinalizePre(*txn, ver)) ==> forall a int :: {ver.Outputs[a]} 0 <= a && a < len(ver.Outputs) && ver.Outputs[a].Type == common.OutputTypeWithdrawalClaim ==> ClaimPre(*txn, ver.References[0])
+//@   loop 0 invariant [was-new] let h == ver.hash in old(badger.kvget(*txn, FK(h))) == 0
+//@   loop 0 invariant [fin] badger.kvget(*txn, FK(ver.hash)) == old(common.SnapId(snap.Snapshot)) && badger.kvget(*txn, FK(ver.hash)) != 0
+//@   loop 0 invariant [frame] let h == ver.hash in forall k mathint :: {badger.kvget(*txn, k)} badger.kvget(*txn, k) != old(badger.kvget(*txn, k)) ==>
+//@       k == FK(h) || k == AIK(ver.Asset) || (keykind(k) == 2 && old(badger.kvget(*txn, k)) == 0) || (keykind(k) == 1 && keyhid(k) == kvval(h)) || keykind(k) == 14 || keykind(k) == 15 || keykind(k) == 16
+//@   loop 0 invariant [info] (ver.Inputs[0].Deposit != nil ==> HasAssetInfo(*txn, ver.Asset)) && (ver.Inputs[0].Deposit == nil ==> badger.kvget(*txn, AIK(ver.Asset)) == old(badger.kvget(*txn, AIK(ver.Asset))))
+
+//@ -- ═════════ badger_topology.go / badger_work.go ═════════
+//@ -- writeTopology: ONE contract (properties C15, C35) in zz_contracts_c35_verif.go; the C15 clauses there are [c15-frame] [c15-written] [free] [db].
+
+//@ func writeSnapshotWork
+//@   property C15
+//@   requires txn != nil && snap != nil && snap.Snapshot != nil
+//@   requires [signers] len(signers) < 144115188075855872 -- 2^57; fact of the language: n 32-byte elements occupy 32n bytes of an address space below 2^63, so n < 2^58 (the callers pass at most 64 signers: one per bit of the CoSi mask); above that (1+n)*32 wraps
+//@   modifies *txn
+//@   ensures [frame] forall k mathint :: {badger.kvget(*txn, k)} k != WorkSnapKeyId(kvval(snap.NodeId), snap.RoundNumber, snap.Timestamp) ==> badger.kvget(*txn, k) == old(badger.kvget(*txn, k))
+//@   ensures [written] err == nil ==> badger.kvget(*txn, WorkSnapKeyId(kvval(snap.NodeId), snap.RoundNumber, snap.Timestamp)) != 0
+//@   ensures [fail] err != nil ==> *txn == old(*txn)
+//@   ensures [db] badger.txndb(*txn) == old(badger.txndb(*txn)) -- the transaction stays attached to its DB (needed by NewTransaction/Commit style callers: C15)
+//@   loop 0 invariant [own] fresh(val) && len(val) == (1 + len(signers)) * 32
+//@   loop 0 invariant [key] fresh(key) && kvkey(key) == WorkSnapKeyId(kvval(snap.NodeId), snap.RoundNumber, snap.Timestamp) && arr(key) != arr(val)
+
+//@ -- ═════════ badger_graph.go: writeSnapshot / WriteSnapshot ═════════
+//@ -- SnapKeyOf / the effects of one snapshot on the view, by key kind. SnapChange(a, b, snap): how the view b may differ from a after
+//@ -- writeSnapshot(snap) (also on a failing execution, whose writes are discarded with the badger transaction):
+//@ --  * DEPOSIT, MINT slots and TRANSACTION bodies (kinds 3, 4, 5) and WORKSNAPSHOT records (11) are untouched;
+//@ --  * a FINALIZATION record (6) that exists is never changed (first finalization wins);
+//@ --  * UNIQUE records (7) change only for this snapshot's node; the only SNAPSHOT (8), TOPOLOGY (9), SNAPTOPO (10) keys that change are this snapshot's;
+//@ --  * a GHOST binding (2) that exists is never changed.
+//@ spec SnapKeyOf(snap *common.SnapshotWithTopologicalOrder) mathint = SnapKeyId(kvval(snap.NodeId), snap.RoundNumber, common.SnapId(snap.Snapshot))
+//@ spec SnapChange(a badger.Txn, b badger.Txn, node mathint, skey mathint, order mathint, sid mathint) bool =
+//@     (forall k mathint :: {badger.kvget(b, k)} keykind(k) == 3 || keykind(k) == 4 || keykind(k) == 5 || keykind(k) == 11 ==> badger.kvget(b, k) == badger.kvget(a, k)) &&
+//@     (forall k mathint :: {badger.kvget(b, k)} (keykind(k) == 6 || keykind(k) == 2) && badger.kvget(a, k) != 0 ==> badger.kvget(b, k) == badger.kvget(a, k)) &&
+//@     (forall k mathint :: {badger.kvget(b, k)} keykind(k) == 7 && keynode(k) != node ==> badger.kvget(b, k) == badger.kvget(a, k)) &&
+//@     (forall k mathint :: {badger.kvget(b, k)} keykind(k) == 8 && k != skey ==> badger.kvget(b, k) == badger.kvget(a, k)) &&
+//@     (forall k mathint :: {badger.kvget(b, k)} keykind(k) == 9 && k != TopoKeyId(order) ==> badger.kvget(b, k) == badger.kvget(a, k)) &&
+//@     (forall k mathint :: {badger.kvget(b, k)} keykind(k) == 10 && k != SnapTopoKeyId(sid) ==> badger.kvget(b, k) == badger.kvget(a, k))
+//@ -- VersionedMarshal of the snapshot with its topological order: the encoder is C07's subject. ASSUMED: it writes nothing visible and returns a new slice; it panics for an unknown version.
+//@ assume func (s *common.SnapshotWithTopologicalOrder) VersionedMarshal
+//@   requires s != nil && s.Snapshot != nil && s.Version == common.SnapshotVersionCommonEncoding
+//@   modifies nothing
+//@   ensures fresh(result)
+//@ func writeSnapshot
+//@   property C15
+//@   requires txn != nil && SnapOK(snap)
+//@   requires [stored] forall i int :: {snap.Transactions[i]} 0 <= i && i < len(snap.Transactions) ==> HasTx(*txn, snap.Transactions[i]) -- otherwise readTransaction returns nil and finalizeTransaction dereferences it; established by the Debug block of WriteSnapshot (which panics first) and, before that, by kernel.validateSnapshotTransaction
+//@   modifies *txn
+//@   ensures [change] SnapChange(old(*txn), *txn, kvval(snap.NodeId), SnapKeyOf(snap), snap.TopologicalOrder, common.SnapId(snap.Snapshot))
+//@   ensures [unique] err == nil ==> forall i int :: {snap.Transactions[i]} 0 <= i && i < len(snap.Transactions) ==> badger.kvget(*txn, UQK(snap.NodeId, snap.Transactions[i])) != 0
+//@   ensures [db] badger.txndb(*txn) == old(badger.txndb(*txn)) -- the transaction stays attached to its DB (needed by NewTransaction/Commit style callers: C15)
+//@   ensures [snapshot] err == nil ==> badger.kvget(*txn, SnapKeyOf(snap)) != 0
+//@   ensures [topology] err == nil ==> badger.kvget(*txn, TopoKeyId(snap.TopologicalOrder)) == KeyAsVal(SnapKeyOf(snap)) && badger.kvget(*txn, SnapTopoKeyId(common.SnapId(snap.Snapshot))) == KeyAsVal(TopoKeyId(snap.TopologicalOrder)) &&
+//@       old(badger.kvget(*txn, TopoKeyId(snap.TopologicalOrder))) == 0
+//@   loop 0 invariant [change] SnapChange(old(*txn), *txn, kvval(snap.NodeId), SnapKeyOf(snap), snap.TopologicalOrder, common.SnapId(snap.Snapshot))
+//@   loop 0 invariant [db] badger.txndb(*txn) == old(badger.txndb(*txn))
+//@   loop 0 invariant [untouched] forall k mathint :: {badger.kvget(*txn, k)} keykind(k) == 8 || keykind(k) == 9 || keykind(k) == 10 ==> badger.kvget(*txn, k) == old(badger.kvget(*txn, k))
+//@   loop 0 invariant [unique] forall j int :: {snap.Transactions[j]} 0 <= j && j <= rangeindex ==> badger.kvget(*txn, UQK(snap.NodeId, snap.Transactions[j])) != 0
+
+//@ -- DbSnapChange: SnapChange over the committed state, plus the WORKSNAPSHOT record (kind 11) of this snapshot written by writeSnapshotWork.
+//@ spec DbSnapChange(a badger.DB, b badger.DB, node mathint, skey mathint, order mathint, sid mathint, wkey mathint) bool =
+//@     (forall k mathint :: {badger.dbget(b, k)} keykind(k) == 3 || keykind(k) == 4 || keykind(k) == 5 ==> badger.dbget(b, k) == badger.dbget(a, k)) &&
+//@     (forall k mathint :: {badger.dbget(b, k)} (keykind(k) == 6 || keykind(k) == 2) && badger.dbget(a, k) != 0 ==> badger.dbget(b, k) == badger.dbget(a, k)) &&
+//@     (forall k mathint :: {badger.dbget(b, k)} keykind(k) == 7 && keynode(k) != node ==> badger.dbget(b, k) == badger.dbget(a, k)) &&
+//@     (forall k mathint :: {badger.dbget(b, k)} keykind(k) == 8 && k != skey ==> badger.dbget(b, k) == badger.dbget(a, k)) &&
+//@     (forall k mathint :: {badger.dbget(b, k)} keykind(k) == 9 && k != TopoKeyId(order) ==> badger.dbget(b, k) == badger.dbget(a, k)) &&
+//@     (forall k mathint :: {badger.dbget(b, k)} keykind(k) == 10 && k != SnapTopoKeyId(sid) ==> badger.dbget(b, k) == badger.dbget(a, k)) &&
+//@     (forall k mathint :: {badger.dbget(b, k)} keykind(k) == 11 && k != wkey ==> badger.dbget(b, k) == badger.dbget(a, k))
+
+//@ -- WriteSnapshot: ONE badger transaction (NewTransaction ... Commit), under the store mutex. All or nothing:
+//@ --  [atomic]  every failing execution leaves the committed state exactly as it was: all writes go to the one transaction, and Commit
+//@ --            is reached only when writeSnapshot and writeSnapshotWork both succeeded (a failing Commit writes nothing);
+//@ --  success   installs the transaction's view: the effects are those of writeSnapshot + writeSnapshotWork, restated over the committed state.
+//@ -- maypanic: the explicit panics are the `config.Debug` assertion block ("FIXME assert only"): they precede every write and the Commit;
+//@ -- the deferred Discard drops the transaction, so a panicking execution applies nothing either (Go semantics of defer, argued, not an
+//@ -- obligation: the engine has no model of the state after a panic).
+//@ func (s *BadgerStore) WriteSnapshot
+//@   property C15
+//@   lockset mutex -- syntactic: s.mutex.Lock() + deferred Unlock around the single badger transaction (not a proof about schedules)
+//@   maypanic
+//@   requires StoreOK(s) && SnapOK(snap)
+//@   requires [signers] len(signers) < 144115188075855872 -- see writeSnapshotWork
+//@   requires [debug-block] let v == badger.dbget(*s.snapshotsDB, RK(snap.NodeId)) in v != 0 && common.RoundHashOf(v).HasValue() && (common.RoundNumberOf(v) > 0 ==> common.RoundHasRefs(v)) &&
+//@       (snap.RoundNumber > 0 ==> snap.References != nil) -- the assertion block dereferences the round cache and both reference links: kernel writes ROUND/<node> (StartNewRound, C20: a stored round has a non-zero hash; a round with a positive number carries its references) before the first snapshot of a round; a snapshot of a positive round carries references (C07 decoder: round rules)
+//@   modifies *s.snapshotsDB
+//@   ensures [atomic] err != nil ==> *s.snapshotsDB == old(*s.snapshotsDB)
+//@   ensures [change] DbSnapChange(old(*s.snapshotsDB), *s.snapshotsDB, kvval(snap.NodeId), SnapKeyOf(snap), snap.TopologicalOrder, common.SnapId(snap.Snapshot), WorkSnapKeyId(kvval(snap.NodeId), snap.RoundNumber, snap.Timestamp))
+//@   ensures [unique] err == nil ==> forall i int :: {snap.Transactions[i]} 0 <= i && i < len(snap.Transactions) ==> badger.dbget(*s.snapshotsDB, UQK(snap.NodeId, snap.Transactions[i])) != 0
+//@   ensures [snapshot] err == nil ==> badger.dbget(*s.snapshotsDB, SnapKeyOf(snap)) != 0
+//@   ensures [topology] err == nil ==> badger.dbget(*s.snapshotsDB, TopoKeyId(snap.TopologicalOrder)) == KeyAsVal(SnapKeyOf(snap)) && badger.dbget(*s.snapshotsDB, SnapTopoKeyId(common.SnapId(snap.Snapshot))) == KeyAsVal(TopoKeyId(snap.TopologicalOrder)) &&
+//@       old(badger.dbget(*s.snapshotsDB, TopoKeyId(snap.TopologicalOrder))) == 0
+//@   ensures [work] err == nil ==> badger.dbget(*s.snapshotsDB, WorkSnapKeyId(kvval(snap.NodeId), snap.RoundNumber, snap.Timestamp)) != 0
+//@   loop 0 invariant [stored] forall j int :: {snap.Transactions[j]} 0 <= j && j <= rangeindex ==> HasTx(*txn, snap.Transactions[j])
